@@ -58,6 +58,11 @@ CHECKS = {
              text='Every module of all 44 symbol sizes (plain and verbose iteration) is compared with the class the specification derives '
                   'from the geometry; colourful documents are decoded (Render / Vector machines) and every module colour compared with the '
                   'option of its type. The single misclassified module (8, size-9) is accepted only via the named deviation.', ref='6 C11'),
+ 'C12': dict(tech='TLA+ route model (spec/Routes.tla: effective kind / options per route, CLI keyword filtering) exported as vectors; executions validated by TLC (Trace_Routes)',
+             text='TLC enumerates kinds x 10 routes x option sets with the reference call each route must agree with; route and reference are '
+                  'executed (files, streams, data URIs, svg_inline, svgz, in-process and subprocess CLI) and TLC checks that the reference is '
+                  'the one the model prescribes and that the normalised documents are identical; sequence file names / contents, unknown '
+                  'extensions and the CLI terminal output are further observation families.', ref='6 C12'),
 }
 
 NOT_YET = {}
